@@ -541,6 +541,7 @@ class _ExactVerdict:
         self.ne = sorted({v for a, b, v in rows if a != b})
         self.sig = frozenset((a, b) for a, b, _ in rows)
         self.exact = len(self.eq) == 1 and len(self.ne) == 1 and self.eq != self.ne
+        self.whole = self                      # the same expression on ALL pairs of the universe (set by the caller)
 
     def counterexample(self) -> List[str]:
         def row(a, b, v):
@@ -837,7 +838,8 @@ def r1_score_order(run):
                     if direct.get('and') and (direct['and'] == 'empty') != (not A & B):
                         continue
                     rows.append((A, B, model.value(e, A, B)))
-            verdicts[key] = _ExactVerdict(rows, unreadable)
+            verdicts[key] = v = _ExactVerdict(rows, unreadable)
+            v.whole = v if len(rows) == len(subsets) ** 2 else _ExactVerdict([(A, B, model.value(e, A, B)) for A in subsets for B in subsets], [])
         return verdicts[key]
 
     # (a) components by role, on EVERY return of a real score.  A component is
@@ -858,7 +860,8 @@ def r1_score_order(run):
                 # whatever the spelling, decide on the model whether this IS the exact-parameter criterion; in that
                 # criterion's own position a modelled expression that is not is a look-alike, reported in (b)
                 try:
-                    if exact_verdict(ret, e).exact or (role is None and i == 2):
+                    v = exact_verdict(ret, e)
+                    if v.exact or v.whole.exact or (role is None and i == 2):
                         role = 2
                 except _OutOfModel as why:
                     if role is None:
@@ -915,15 +918,18 @@ def r1_score_order(run):
             if (2, unparse(e), v.sig) not in done:
                 done.add((2, unparse(e), v.sig))
                 e2 = _expand_name(ms, e)
-                if not v.eq or not v.ne:
-                    raise UnknownIdiom('match_score: the tests guarding %s leave only %s parameter names to score' % (
-                        short(ret, 80), 'equal' if v.eq else 'different'))
+                if not v.rows:
+                    raise UnknownIdiom('match_score: the tests guarding %s contradict each other' % short(ret, 80))
                 lower(2, min(v.eq + v.ne))
-                if v.exact:
-                    a, b = v.ne[0], v.eq[0]
-                    exact_vals.add((a, b))
-                    run.check(a < b, 'an empty symmetric difference of parameter names scores above a non-empty one', ms, e2,
-                              runtime_witness='a range with extraneous parameters outranks the exactly matching range')
+                # right on every pair of name sets that can reach this return (v); the two values come from there or,
+                # when the guards leave only one kind of pair, from the definition taken on all pairs (v.whole)
+                if len(v.eq) <= 1 and len(v.ne) <= 1 and v.eq != v.ne:
+                    src = v if v.exact else (v.whole if v.whole.exact else None)
+                    if src is not None:
+                        a, b = src.ne[0], src.eq[0]
+                        exact_vals.add((a, b))
+                        run.check(a < b, 'an empty symmetric difference of parameter names scores above a non-empty one', ms, e2,
+                                  runtime_witness='a range with extraneous parameters outranks the exactly matching range')
                 else:
                     if v.unreadable:
                         raise UnknownIdiom('match_score: test %s guarding %s' % (short(v.unreadable[0].ast, 60), short(ret, 80)))
